@@ -103,6 +103,10 @@ func (p DocParams) YAML() string {
 	w("    get:\n      operationId: ping\n      responses:\n")
 	w("        '204': {description: none}\n")
 	w("        '200':\n          description: ok\n          content:\n            text/plain:\n              schema: {type: string, minLength: 2}\n")
+	// a plain-text note: any prefix of a valid body is a valid body too
+	w("    post:\n      operationId: pingNote\n      security: []\n      requestBody:\n        required: true\n        content:\n          text/plain:\n            schema: {type: string, maxLength: 4000}\n      responses:\n")
+	w("        '204': {description: none}\n")
+	w("        '200':\n          description: ok\n          content:\n            text/plain:\n              schema: {type: string, minLength: 2}\n")
 	w("components:\n  securitySchemes:\n    key: {type: apiKey, in: header, name: X-Key}\n")
 	return sb.String()
 }
